@@ -1,6 +1,6 @@
 """Per-property configuration of the checks (parts, bounds, non-triviality rules, evidence text)."""
 
-HARNESS_SOURCES = ["main.cc", "engine_poly.cc", "engine_tet.cc", "engine_hex.cc", "mon_hist.cc", "mon_c12.cc", "mon_iter.cc", "mon_query.cc", "mon_c13.cc", "mon_c14.cc", "mon_c15.cc", "mon_c16.cc"]
+HARNESS_SOURCES = ["main.cc", "engine_poly.cc", "engine_tet.cc", "engine_hex.cc", "mon_hist.cc", "mon_c12.cc", "mon_iter.cc", "mon_query.cc", "mon_c13.cc", "mon_c14.cc", "mon_c15.cc", "mon_c16.cc", "mon_c19.cc", "mon_c20.cc"]
 
 def cnt(js, k):
     return js.get("cnt", {}).get(k, 0)
@@ -198,6 +198,32 @@ PROPS = {
   "min_counts": {"hex.cells-checked": 20000, "hex.csc.nonempty": 5000, "hex.hfshf.nonempty": 5000, "hex.permutations.accepted": 2000, "hex.on_sheet.interior": 5000, "op.add_cell(8 vertices)": 300},
   "assumptions": COMMON_ASSUME + ["all cells of these meshes are created from eight vertices, with topology check, or from lists already in XF,XB,YF,YB,ZF,ZB order (the layout claim does not extend to unchecked lists in another order)"],
  },
+ "C19": {
+  "level": "exploration",
+  "technique": "independent scalar re-computation (long double) of every VectorT operation over integer lattices (all ordered pairs) and sampled/special floating-point values under UBSan; geometric queries vs formulas on generated meshes",
+  "parts": [
+    {"name": "vec", "flavor": "asan-dbg", "monitor": "C19", "sub": "vec", "cases": {"quick": 336, "thorough": 2400}},
+    {"name": "geo", "flavor": "asan-dbg", "monitor": "C19", "sub": "geo", "cases": {"quick": 300, "thorough": 5000}},
+  ],
+  "nontrivial": {"fn": lambda js: cnt(js, "vec.pairs") >= 100 or (cnt(js, "geo.faces") >= 3 and cnt(js, "geo.halfedges") >= 6),
+                 "text": "part vec: dims 2,3,4 x {int, unsigned, float, double}. Integer types: ALL ordered pairs over the lattice {-3..3}^DIM resp. {0..6}^DIM, chunked by first vector (quick: dims 2 and 3 complete, dim 4 sampled chunks; thorough: all three dims complete = 49+117649+5764801 pairs per type); floating types: random magnitudes over 60 binades + specials (0,-0, denormals, 1e17, 1e150, equal components, equal vectors). Every pair is pushed through + - * / (vector and scalar, in-place forms), unary minus, ==, !=, lexicographic <, |, dot, %, cross, sqrnorm, norm, length, normalize/normalized/normalize_cond, max/min/max_abs/min_abs/l1_norm/l8_norm/mean/mean_abs, minimize/maximize/minimized/maximized/min/max, converting constructor/assignment, << >> round trip, swap, vectorized; exact for integers, 8 ulp-scaled for floats. part geo: random meshes (tets + free polygons, positions with mixed magnitudes): vector/length/barycenter (edge, face, cell), halfface normal vs formula (well-conditioned faces), triangle normals of the two sides opposite, NormalAttrib face/halfface/vertex normals. non-trivial = >=100 pairs or >=3 faces and >=6 halfedges checked; distinct by chunk / mesh digest"},
+  "floor": {"quick": 300, "thorough": 3000},
+  "min_counts": {"vec.pairs": 500000, "geo.normals": 2000, "geo.opposite-normals": 500, "geo.cells": 200},
+  "assumptions": COMMON_ASSUME + ["floating-point results are compared within 8 ulp of the operation's magnitude; values whose squares overflow are excluded", "apply() is not named by the property and not judged"],
+ },
+ "C20": {
+  "level": "exploration",
+  "technique": "ThreadSanitizer on 2/4/8/16 barrier-released reader threads each executing the complete table of const queries in its own random order on one shared const mesh; per-query results compared with a single-threaded reference",
+  "parts": [
+    {"name": "tsan", "flavor": "tsan", "monitor": "C20", "cases": {"quick": 48, "thorough": 1000}, "case_timeout": 900},
+  ],
+  "nontrivial": {"fn": lambda js: cnt(js, "overlapping-thread-pairs") >= 1 and cnt(js, "query-kinds") >= 40 and cnt(js, "concurrent-queries") >= 1000,
+                 "text": "case = one mesh (poly/tet/hex in turn, built by a history in deferred mode so that deleted entities and live properties of int/bool/string are present) shared as const by 2, 4, 8 or 16 threads released by a barrier; every thread runs the whole query table (every circulator and iterator kind incl. boundary iterators, lookups, valence/boundary queries, edge/face/cell/halfedge/halfface, positions, PropertyPtr::operator[] const and value copies, geometry queries, tet/hex queries) on all entities in its own random order, 10 (thorough 30) rounds. TSan watches the run (reports with a frame inside the repository are violations, de-duplicated by entry points); each result is compared with the value computed before the threads started. non-trivial = >=1 pair of threads overlapped in time (timestamps), >=40 query kinds, >=1000 concurrent queries; distinct by mesh/thread-count digest"},
+  "floor": {"quick": 20, "thorough": 400},
+  "min_counts": {"concurrent-queries": 500000, "overlapping-thread-pairs": 100},
+  "deadline": {"quick": 3000, "thorough": 6 * 3600},
+  "assumptions": ["TSan (gcc 12) sees every memory access of the instrumented library and harness; libstdc++ is not instrumented but its containers are header code compiled with instrumentation", "only interleavings that actually occurred are judged; property creation/destruction is excluded as in the statement"],
+ },
  "C17": {
   "level": "exploration",
   "technique": "handle-level before/after snapshot of every swap (tags, flags, all properties side by side), double-swap and self-swap identity, plus model and incidence oracles",
@@ -244,6 +270,10 @@ LEVEL_TEXT = {
          "note": "trusted: the brute-force link condition and cell tuple computation"},
  "C16": {"text": "Runtime exploration: the layout and navigation contracts are recomputed from vertex sets for every live hexahedron of the reached states; permutations of valid halfface lists probe the re-ordering code (all 720 in the thorough tier).",
          "note": "trusted: Scan and the vertex-set based neighbour computation"},
+ "C19": {"text": "Integer vector algebra is enumerated completely over small lattices (all ordered pairs; thorough tier all dims) and sampled for floating point with special values; geometry queries are re-computed from positions on generated meshes.",
+         "note": "trusted: long double reference arithmetic; tolerances as stated"},
+ "C20": {"text": "Race detection on real concurrent executions: ThreadSanitizer observes overlapping reader threads running every const query kind; determinism is checked per query against a single-threaded reference. Schedules are sampled, not enumerated.",
+         "note": "trusted: TSan's happens-before analysis; thread overlap is measured and reported"},
  "C17": {"text": "Runtime exploration: every swap is observed at handle level (tags, deletion flags, all property arrays side by side) before/after, repeated (identity) and with equal arguments (no-op), combined with the model and incidence oracles.",
          "note": "trusted: snapshots read through the public API; contents of deleted slots unspecified"},
 }
